@@ -167,7 +167,7 @@ func cmdRun(args []string) {
 	for _, r := range res {
 		counts[r.Status]++
 		if r.Status != "discharged" {
-			fmt.Printf("%-10s %s  [%s %.2fs] %s\n", r.Status, strings.TrimPrefix(r.Obl.Name, modulePath), r.Solver, r.Seconds, firstLines(nonModel(r.Output), 2))
+			fmt.Printf("%-10s %s  [%s %.2fs] %s:%d %s\n", r.Status, strings.TrimPrefix(r.Obl.Name, modulePath), r.Solver, r.Seconds, strings.TrimPrefix(r.Obl.Pos.Filename, "/repo/"), r.Obl.Pos.Line, firstLines(nonModel(r.Output), 2))
 			if *showModel && r.Model != "" {
 				fmt.Println(modelSummary(r))
 			}
